@@ -33,7 +33,7 @@ CASE_TIMEOUT = 30.0
 MOD = __name__
 META = {
     "rule": "Hypothesis rule-based state machine: histories of <=30 (quick) / <=50 (thorough) operations parse / & / | / reparse / "
-    "variant over 29 base atoms x 4 spellings; every step is a probe compared warm vs cold. Non-trivial = a probe whose "
+    "variant over 31 base atoms x 4 spellings; every step is a probe compared warm vs cold. Non-trivial = a probe whose "
     "history contains, before it, an operation using one of the probe's atoms in a different spelling (equal but differently "
     "built operand); distinct by (history prefix, probe).",
     "assumptions": [
@@ -54,6 +54,8 @@ BASE = [
     ("python_full_version", "<", "3.8"), ("python_full_version", ">=", "3.9"), ("python_full_version", "!=", "3.8.*"), ("python_version", "<", "3.8"),
     ("python_version", "~=", "3.8"), ("python_version", "<", "4"),
     ("python_full_version", ">", "3.10"),
+    # epoch literals: valid PEP 440, take their own path through the python_version translation
+    ("python_version", ">=", "1!3.8"), ("python_version", "!=", "1!3.9"),
 ]
 REFL = M.REFLECT
 # atom pools of one history: related atoms (same variable, bounds one ~= step apart, X.Y / X.Y.0 twins) so that
@@ -63,6 +65,7 @@ FAMILIES = [
     [6, 7, 8, 14], [9, 10, 6, 8], [11, 12, 6], [6, 8, 9, 0], [13, 0, 6],
     [22, 23, 24, 25], [26, 27, 0, 25], [22, 23, 25, 0], [24, 22, 23, 1],
     [9, 28, 7, 5], [9, 21, 7, 4], [6, 2, 10, 5],
+    [29, 30, 23, 2],
 ]
 
 
@@ -193,9 +196,20 @@ def cold(recipe):
     return observe(compute(recipe))
 
 
+def raised(e):
+    """An operation that raises is an observation too: 'raises in a fresh process, returns a marker after some
+    history' is history dependence (whether raising is right at all is C02's / C03's business)."""
+    return {"text": f"<raises {type(e).__name__}>", "table": "", "is_any": None, "is_empty": None, "class": f"raises:{type(e).__name__}"}
+
+
 def cold_with_object(recipe):
     harness.reset_caches()
-    m = compute(recipe)
+    try:
+        m = compute(recipe)
+    except harness.HarnessError:
+        raise
+    except Exception as e:  # noqa: BLE001
+        return raised(e), None
     return observe(m), m
 
 
@@ -241,7 +255,17 @@ def make_machine(acc, max_steps):
 
         def _do(self, op):
             self.ops.append(op)
-            r = apply_op(self.ops, self.results, op)
+            try:
+                r = apply_op(self.ops, self.results, op)
+            except harness.HarnessError:
+                raise
+            except Exception as e:  # noqa: BLE001
+                # the operation raises after this history: judge it as a final probe (does it raise when run first,
+                # too?) and go on without it
+                ops = list(self.ops)
+                self.ops.pop()
+                harness.process(sys.modules[MOD], acc, "history", {"ops": ops, "warm": self.warm + [raised(e)], "_objs": self.results + [None]}, "machines", isolate=False)
+                return
             self.results.append(r)
             self.warm.append(observe(r))
 
@@ -288,7 +312,7 @@ def tasks(tier, seed):
     steps = 30 if tier == "quick" else 50
     t = [(MOD, "machines", (n // shards, seed * 1_000_003 + i, steps)) for i in range(shards)]
     t += [(MOD, "hashseed", (f, 4 if tier == "quick" else 8)) for f in ([0, 16, 12] if tier == "quick" else range(len(FAMILIES)))]
-    fams = range(len(FAMILIES)) if tier == "thorough" else [0, 2, 7, 12, 13, 15]
+    fams = range(len(FAMILIES)) if tier == "thorough" else [0, 2, 7, 12, 13, 15, 19]
     t += [(MOD, "two_step", (f, sh, 4)) for f in fams for sh in range(4)]
     if tier == "thorough":
         t += [(MOD, "fresh", (seed * 77 + i, 20)) for i in range(16)]
@@ -317,25 +341,25 @@ def two_step(acc, fam_idx, shard, nshards):
     for pi, p in enumerate(probes):
         if pi % nshards != shard:
             continue
-        try:
-            cold_obs[pi], cold_m = cold_with_object(p)
-        except Exception:  # noqa: BLE001  (a crash is C02's business)
-            continue
+        cold_obs[pi], cold_m = cold_with_object(p)
         for h in hist:
             acc.evaluations += 1
             acc.layers[layer] += 1
             harness.reset_caches()
             try:
                 compute(h)
+            except Exception:  # noqa: BLE001  (the history itself raises: nothing to compare)
+                continue
+            try:
                 wm = compute(p)
                 w = observe(wm)
-            except Exception:  # noqa: BLE001
-                continue
+            except Exception as e:  # noqa: BLE001
+                wm, w = None, raised(e)
             acc.oracle_evaluations += 1
             if h != p:
                 acc.nontrivial_exhaustive += 1
             d = diff_kind(w, cold_obs[pi])
-            if d or not same_object(wm, cold_m):
+            if d or (wm is not None and cold_m is not None and not same_object(wm, cold_m)):
                 ops = _recipe_to_ops(h)
                 ops = ops + _recipe_to_ops(p, base=len(ops))
                 harness.process(mod, acc, "history", {"ops": ops}, layer, isolate=False)
@@ -484,7 +508,16 @@ def evaluate(kind, case, acc):
         harness.reset_caches()
         results, warm = [], []
         for k, op in enumerate(ops):
-            r = apply_op(ops[: k + 1], results, op)
+            try:
+                r = apply_op(ops[: k + 1], results, op)
+            except harness.HarnessError:
+                raise
+            except Exception as e:  # noqa: BLE001
+                if k < len(ops) - 1:
+                    return  # an operation of the history raises: nothing to compare (not a C10 matter)
+                results.append(None)
+                warm.append(raised(e))
+                break
             results.append(r)
             warm.append(observe(r))
     seen = {}
@@ -504,7 +537,7 @@ def evaluate(kind, case, acc):
         if d:
             acc.fail(kind, f"warm-differs-from-cold:{d}:{op[0]}", {"ops": ops[: k + 1]}, expected={"cold": {x: c[x] for x in ("text", "class", "is_any", "is_empty")}}, got={"warm": {x: warm[k][x] for x in ("text", "class", "is_any", "is_empty")}, "table_equal": warm[k]["table"] == c["table"], "probe": k})
             break
-        if results is not None and not same_object(results[k], c_obj):
+        if results is not None and results[k] is not None and c_obj is not None and not same_object(results[k], c_obj):
             acc.fail(kind, f"warm-differs-from-cold:object-equality:{op[0]}", {"ops": ops[: k + 1]}, expected="warm result == cold result (same text, same class)", got={"text": c["text"], "warm == cold": results[k] == c_obj, "cold == warm": c_obj == results[k], "probe": k})
             break
     if len(ops) >= 4:
